@@ -1,0 +1,27 @@
+//go:build verif
+
+// Package verifhook provides named perturbation points for the runtime
+// monitors kept in /verif. With the "verif" build tag, At calls the function
+// installed with Set (if any); the monitors use it to inject delays and to
+// count how often each point was reached.
+package verifhook
+
+import "sync/atomic"
+
+var hook atomic.Pointer[func(string)]
+
+// At marks a perturbation point.
+func At(point string) {
+	if f := hook.Load(); f != nil {
+		(*f)(point)
+	}
+}
+
+// Set installs f as the function called at every point (nil removes it).
+func Set(f func(point string)) {
+	if f == nil {
+		hook.Store(nil)
+		return
+	}
+	hook.Store(&f)
+}
